@@ -205,6 +205,9 @@ func c15CopySegments(src, dst string) error {
 		return err
 	}
 	ents, err := os.ReadDir(src)
+	if os.IsNotExist(err) {
+		return nil // nothing archived yet
+	}
 	if err != nil {
 		return err
 	}
@@ -586,15 +589,47 @@ func runC15Head(c c15Case, r *ev.Rec) error {
 	var truncTime int64 = math.MinInt64 // M: newest truncation time
 	checkpoints, removedBeforeCP, removed := 0, false, false
 	nontrivial := false
-	newestByRef := map[uint64]int64{} // per handed-out ref: newest committed sample time
 	var staleOrphan error             // first occurrence of the known root cause (reported at the end)
 	var dupMeta error                 // same for the duplicate-ref metadata root cause
+	var reissuedMeta error            // same for metadata of a re-issued ref number
 
 	// ---- oracle ----
 	verify := func(when string) error {
 		items, cpIdx, _, err := walDump(walDir)
 		if err != nil {
 			return ev.Failf("%s: WAL is not readable: %v", when, err)
+		}
+		// raw untruncated log: everything archived so far plus the current segments
+		rawDir, err := os.MkdirTemp(root, "raw")
+		if err != nil {
+			return err
+		}
+		defer os.RemoveAll(rawDir)
+		if err := c15CopySegments(archive, rawDir); err != nil {
+			return err
+		}
+		if err := c15CopySegments(walDir, rawDir); err != nil {
+			return err
+		}
+		fullItems, _, _, fullErr := walDump(rawDir)
+		issued := map[uint64]int{}          // ref number -> series records in the whole history
+		incNewest := map[uint64][]int64{} // ref number -> newest sample time of each incarnation
+		for _, it := range fullItems {
+			switch it.Kind {
+			case "series":
+				issued[it.Ref]++
+				incNewest[it.Ref] = append(incNewest[it.Ref], math.MinInt64)
+			case "float", "hist", "fhist":
+				if l := incNewest[it.Ref]; len(l) > 0 && it.T > l[len(l)-1] {
+					l[len(l)-1] = it.T
+				}
+			}
+		}
+		laterRecord := map[uint64]bool{} // refs with a series record somewhere in checkpoint+segments
+		for _, it := range items {
+			if it.Kind == "series" {
+				laterRecord[it.Ref] = true
+			}
 		}
 		seen := map[uint64]bool{}
 		if os.Getenv("VERIF_DEBUG") != "" {
@@ -636,10 +671,33 @@ func runC15Head(c c15Case, r *ev.Rec) error {
 				desc = fmt.Sprintf("metadata %+v", it.Meta)
 				// metadata carries no time: expired when the series it was handed out for has
 				// no sample at or after the truncation time
-				nt, known := newestByRef[it.Ref]
-				expired = known && nt < truncTime
+				// (taken from the archived history: newest sample of every incarnation of the ref
+				// number; the incarnation whose series record follows later in this WAL is not
+				// the one the orphan belongs to)
+				incs := incNewest[it.Ref]
+				if laterRecord[it.Ref] && len(incs) > 0 {
+					incs = incs[:len(incs)-1]
+				}
+				expired = len(incs) > 0
+				for _, nt := range incs {
+					if nt >= truncTime {
+						expired = false
+					}
+				}
 			}
 			msg := fmt.Sprintf("%s: %s for ref %d has no preceding series record in replay order (checkpoint %d, entry from checkpoint: %v, truncation time %d)", when, desc, it.Ref, cpIdx, it.InCP, truncTime)
+			if it.Kind == "meta" && it.InCP && issued[it.Ref] >= 2 {
+				// Root cause: consequence of the expired entries above plus ref re-issue. After
+				// everything was truncated and the head restarted, the ref number was handed out
+				// again; keep(ref) is true for the new series, so the checkpoint copies the dead
+				// series' metadata entry, which then precedes (or belongs to another label set
+				// than) the new series record.
+				if reissuedMeta == nil {
+					reissuedMeta = ev.FailSig(c15SigReissuedMeta, "%s; ref number %d was issued %d times in this history", msg, it.Ref, issued[it.Ref])
+				}
+				r.Class("expired-metadata-of-reissued-ref-in-checkpoint")
+				continue
+			}
 			if expired && !it.InCP && cpIdx >= 0 {
 				// Root cause: the series was garbage-collected, its record was kept only until
 				// the head's min time passed its keep-until time and was then dropped by a
@@ -664,18 +722,11 @@ func runC15Head(c c15Case, r *ev.Rec) error {
 			return err
 		}
 		defer os.RemoveAll(scratch)
-		truncDir, rawDir, fullDir := filepath.Join(scratch, "trunc", "wal"), filepath.Join(scratch, "raw"), filepath.Join(scratch, "full", "wal")
+		truncDir, fullDir := filepath.Join(scratch, "trunc", "wal"), filepath.Join(scratch, "full", "wal")
 		if err := c15CopyWAL(walDir, truncDir); err != nil {
 			return err
 		}
-		if err := c15CopySegments(archive, rawDir); err != nil {
-			return err
-		}
-		if err := c15CopySegments(walDir, rawDir); err != nil {
-			return err
-		}
-		fullItems, _, _, err := walDump(rawDir)
-		if err != nil {
+		if fullErr != nil {
 			// the retained copy is the harness' own artefact
 			r.Class("untruncated-log-unreadable")
 			return nil
@@ -817,7 +868,6 @@ func runC15Head(c c15Case, r *ev.Rec) error {
 				meta *metadata.Metadata
 			}
 			var accepted []acc
-			txRefs := map[int]storage.SeriesRef{}
 			for _, a := range s.Appends {
 				t := s.T + a.DT
 				var ref storage.SeriesRef
@@ -846,7 +896,6 @@ func runC15Head(c c15Case, r *ev.Rec) error {
 					maybeReincarnated[a.S] = true
 				}
 				refs[a.S] = ref
-				txRefs[len(accepted)] = ref
 				x := acc{s: a.S, t: t}
 				if a.Ex {
 					exCounter++
@@ -869,10 +918,7 @@ func runC15Head(c c15Case, r *ev.Rec) error {
 			if err := app.Commit(); err != nil {
 				return ev.Failf("step %d: Commit: %v", si, err)
 			}
-			for i, x := range accepted {
-				if nt, ok := newestByRef[uint64(txRefs[i])]; !ok || x.t > nt {
-					newestByRef[uint64(txRefs[i])] = x.t
-				}
+			for _, x := range accepted {
 				if x.t > newest[x.s] {
 					newest[x.s] = x.t
 				}
@@ -987,6 +1033,9 @@ func runC15Head(c c15Case, r *ev.Rec) error {
 	if nontrivial {
 		r.NonTrivial()
 	}
+	if reissuedMeta != nil {
+		return reissuedMeta
+	}
 	if dupMeta != nil {
 		return dupMeta
 	}
@@ -1000,6 +1049,10 @@ const c15SigStaleOrphan = "head-checkpoint-leaves-expired-entries-of-dropped-ser
 // Root-cause signature: newest metadata of a live series was logged under a duplicate ref
 // and is dropped by the checkpoint together with that ref's series record.
 const c15SigDupRefMeta = "head-checkpoint-drops-metadata-logged-under-duplicate-ref"
+
+// Root-cause signature: an expired metadata entry of a dead series is copied into a new
+// checkpoint because its ref number was handed out again after a full truncation + restart.
+const c15SigReissuedMeta = "head-reissued-ref-carries-expired-metadata-into-checkpoint"
 
 func TestC15Head(t *testing.T) {
 	ev.Check(t, "C15",
